@@ -992,10 +992,11 @@ static bool parse_number(TokenContext &ctx, Chunk &pc)
          case '8':
          case '9':
 
+            // '019.5' is a decimal floating constant: the digits stay together whatever they are
             do
             {
                pc.Str().append(ctx.get());
-            } while (is_oct_(ctx.peek()));
+            } while (is_dec_(ctx.peek()));
 
             break;
 
